@@ -19,10 +19,16 @@ META = {
 }
 
 
-def nonempty_return_defs(b):
-    """definitions of the return place that are not `Vec::new()`"""
+def nonempty_return_defs(b, local=0, depth=0):
+    """definitions of the return place that are not `Vec::new()` (looking through the return-value copy of an inlined helper)"""
     out = []
-    for d in b.defs().get(0, []):
+    for d in b.defs().get(local, []):
+        if d["kind"] == "assign" and d["rv"]["k"] == "use" and d.get("line") is not None and depth < 4:
+            op = d["rv"]["op"]
+            src = b.blocks[d["bb"]]["stmts"][d["i"]] if d.get("i") is not None else {}
+            if src.get("inl") and op.get("k") in ("move", "copy") and not op["pl"]["p"]:
+                out += nonempty_return_defs(b, op["pl"]["l"], depth + 1)
+                continue
         if d["kind"] == "call":
             c = d["call"]
             if c.callee and c.callee.name == "new" and "Vec" in (c.callee.impl_self or ""):
@@ -39,7 +45,8 @@ def nonempty_return_defs(b):
 @rule("V1", doc="pattern-variable arm: a bound variable is accepted only behind eq; an unbound one is inserted (V6)")
 def v1(ctx):
     crate = ctx.lib()
-    b = fn(crate, "ematch_impl", "rewrite/ematch.rs")
+    from .c04 import MATCHER_ANCHORS
+    b = mir.inline_view(crate, fn(crate, "ematch_impl", "rewrite/ematch.rs"), keep=MATCHER_ANCHORS)
     gets = [c for c in b.calls if c.callee and c.callee.name == "get" and role_mentions_field(b.role_of_operand(c.args[0]), "partial_subst")]
     if not ctx.floor("lookups of the pattern variable in the partial substitution", len(gets), 1):
         return
